@@ -21,7 +21,7 @@
 EXTENDS C19_Eval, TraceLib
 
 PPFails(e, rpo, rp) ==
-  IF ~Printable(e, TRUE) THEN FALSE
+  IF ~Printable(e, TRUE) \/ ~PrintableCanon(e) THEN FALSE
   ELSE IF rpo # "ok" THEN TRUE
   ELSE LET c == SameUpToNumerals(e, rp) IN c.judged /\ ~c.same
 
